@@ -80,61 +80,71 @@ def _oracle(name, mk=lambda s: Obj('v', kind='opaque'), boolean=False):
     return h
 
 
-@obligation('C17', 'C17-3 SequencerBlock::try_from_raw accepts a raw block only after the rollup-transactions root, every rollup\'s transactions and the rollup ids were all shown to be included under the header\'s data hash')
-def c17_3(run):
-    def mk_header(s):
-        return B.struct(run._ex, 'SequencerBlockHeader', rollup_transactions_root=z3.BitVec('header_rollup_transactions_root', 256), data_hash=z3.BitVec('header_data_hash', 256))
+def must_verify(tyname):
+  def c17_3(run):
+      def mk_header(s):
+          return B.struct(run._ex, 'SequencerBlockHeader', rollup_transactions_root=z3.BitVec('header_rollup_transactions_root', 256), data_hash=z3.BitVec('header_data_hash', 256))
 
-    def mk_rt(s):
-        o = Obj('astria_core::sequencerblock::v1::block::RollupTransactions'); o.fields[(None, run._ex.adts.lookup('RollupTransactions')['fields'].index('rollup_id'))] = z3.BitVec('rt_rollup_id', 256)
-        return o
-    hooks = [(re.compile(r'(^|::)Proof::try_from_raw$|Proof as ([\w:]+::)?Protobuf>::try_from_raw$'), _oracle('proof_wellformed', lambda s: Obj('astria_merkle::audit::Proof', kind='opaque'))),
-             (re.compile(r'SequencerBlockHeader::try_from_raw$'), _oracle('header_wellformed', mk_header)),
-             (re.compile(r'RollupTransactions::try_from_raw$'), _oracle('rollup_transactions_wellformed', mk_rt)),
-             (re.compile(r'(^|::)Proof::verify$'), _oracle('root_proof_verifies', boolean=True)),
-             (re.compile(r'^(sequencerblock::v1::block::)?are_rollup_txs_included$'), _oracle('rollup_txs_included', boolean=True)),
-             (re.compile(r'^(sequencerblock::v1::block::)?are_rollup_ids_included(::<.*>)?$'), _oracle('rollup_ids_included', boolean=True)),
-             (re.compile(r'ExtendedCommitInfoWithProof::try_from_raw$'), _oracle('extended_commit_info_ok', lambda s: Obj('ExtendedCommitInfoWithProof', kind='opaque'))),
-             (re.compile(r'ChangeHash as TryFrom<&\[u8\]>>::try_from$'), _oracle('change_hash_ok', lambda s: Obj('ChangeHash', kind='opaque'))),
-             (re.compile(r'Digest>::digest(::<.*>)?$|Sha256::digest'), lambda ctx: [(None, z3.BitVec('sha256_of_root', 256))]),
-             (re.compile(r'as TryInto<.*Hash>>::try_into$|block::Hash as TryFrom<&\[u8\]>>::try_from$'), _oracle('block_hash_wellformed', lambda s: z3.BitVec('block_hash', 256))),
-             (re.compile(r'^<(bytes::)?Bytes as AsRef<\[u8\]>>::as_ref$|(bytes::)?Bytes::len$'), lambda ctx: [(None, ctx.ex.deref_val(ctx.st, ctx.args[0]) if 'as_ref' in ctx.callee else z3.BitVec('len', 64))])]
-    ex = loader.load(['astria-core', 'astria-merkle', 'astria-core-address'], scalar_types={'astria_core::primitive::v1::RollupId': 256, 'RollupId': 256, 'primitive::v1::RollupId': 256, 'block::Hash': 256, 'sequencerblock::v1::block::Hash': 256},
-                     hooks=hooks, dep_adts=['tendermint'])
-    run._ex = ex
-    cands = [n for n in ex.fns if n.endswith('::try_from_raw') and 'closure' not in n and (ex.impl_self(n) or (None, ''))[1] == 'SequencerBlock']
-    if len(cands) != 1:
-        raise Inconclusive(f'SequencerBlock::try_from_raw not found: {cands}')
-    run.bound(raw='raw blocks with 0..1 rollup entries, proofs / header present or absent, 0 upgrade hashes, extended commit info present or absent', checks='every conversion and every Merkle check is an oracle that may fail; what is decided is that none of them can be skipped')
-    n_ok = 0
-    RAW = 'astria_core::generated::astria::sequencerblock::v1::'
-    for k in (0, 1):
-        for has_eci in (False, True):
-            optp = lambda tag: (lambda o: o)(_opt(tag))
-            raw = B.struct(ex, RAW + 'SequencerBlock', block_hash=Obj('bytes::Bytes', kind='opaque'), header=_opt('header'), rollup_transactions=M.new_vec('Vec<RollupTransactions>', [Obj(RAW + 'RollupTransactions', kind='opaque') for _ in range(k)]),
-                           rollup_transactions_proof=_opt('rtp'), rollup_ids_proof=_opt('rip'), upgrade_change_hashes=M.new_vec('Vec<Bytes>', []),
-                           extended_commit_info_with_proof=(some(Obj('raw-eci', kind='opaque')) if has_eci else none()))
-            st = ex.start(cands[0], [raw])
-            for i, p in enumerate(run.explore(ex, st, allow_havoc=(r'^Arguments::|fmt::', r'SequencerBlockError::'))):
-                lab = f'[{k} rollups, extended commit info {has_eci}, path {i}]'
-                if p.kind != 'return':
-                    run.prove(f'no panic {lab}', p.pc, z3.BoolVal(False), detail=p.info); continue
-                orc = {}
-                for e in p.log:
-                    if e[0] == 'oracle':
-                        orc.setdefault(e[1], []).append(e[2])
-                run.sample({'rollups': k, 'eci': has_eci, 'path': i, 'result': p.result.discr, 'checks': {a: len(b) for a, b in orc.items()}})
-                if p.result.discr != 'Ok':
-                    continue
-                n_ok += 1
-                need = ['proof_wellformed', 'header_wellformed', 'root_proof_verifies', 'rollup_txs_included', 'rollup_ids_included'] + (['extended_commit_info_ok'] if has_eci else [])
-                claim = [z3.BoolVal(all(nm in orc for nm in need) and len(orc.get('proof_wellformed', [])) == 2 and len(orc.get('rollup_transactions_wellformed', [])) == k)]
-                claim += [b for nm in need + (['rollup_transactions_wellformed'] if k else []) for b in orc.get(nm, [])]
-                run.prove(f'accepted => both proofs and the header are well-formed, the transactions root proof verifies, every rollup\'s transactions and the rollup ids are included under the data hash (and the extended commit info, when present, was checked) {lab}',
-                          p.pc, z3.And(*claim))
-    if not n_ok:
-        raise Inconclusive('vacuity: no accepting path')
-    run.require_reached(*run.cur.reach)
+      def mk_rt(s):
+          o = Obj('astria_core::sequencerblock::v1::block::RollupTransactions'); o.fields[(None, run._ex.adts.lookup('RollupTransactions')['fields'].index('rollup_id'))] = z3.BitVec('rt_rollup_id', 256)
+          return o
+      hooks = [(re.compile(r'(^|::)Proof::try_from_raw$|Proof as ([\w:]+::)?Protobuf>::try_from_raw$'), _oracle('proof_wellformed', lambda s: Obj('astria_merkle::audit::Proof', kind='opaque'))),
+               (re.compile(r'SequencerBlockHeader::try_from_raw$'), _oracle('header_wellformed', mk_header)),
+               (re.compile(r'RollupTransactions::try_from_raw$'), _oracle('rollup_transactions_wellformed', mk_rt)),
+               (re.compile(r'(^|::)Proof::verify$'), _oracle('root_proof_verifies', boolean=True)),
+               (re.compile(r'^(sequencerblock::v1::block::)?are_rollup_txs_included$'), _oracle('rollup_txs_included', boolean=True)),
+               (re.compile(r'^(sequencerblock::v1::block::)?are_rollup_ids_included(::<.*>)?$'), _oracle('rollup_ids_included', boolean=True)),
+               (re.compile(r'do_rollup_transactions_match_root$'), _oracle('rollup_txs_match_root', boolean=True)),
+               (re.compile(r'ExtendedCommitInfoWithProof::try_from_raw$'), _oracle('extended_commit_info_ok', lambda s: Obj('ExtendedCommitInfoWithProof', kind='opaque'))),
+               (re.compile(r'ChangeHash as TryFrom<&\[u8\]>>::try_from$'), _oracle('change_hash_ok', lambda s: Obj('ChangeHash', kind='opaque'))),
+               (re.compile(r'Digest>::digest(::<.*>)?$|Sha256::digest'), lambda ctx: [(None, z3.BitVec('sha256_of_root', 256))]),
+               (re.compile(r'as TryInto<.*Hash>>::try_into$|block::Hash as TryFrom<&\[u8\]>>::try_from$'), _oracle('block_hash_wellformed', lambda s: z3.BitVec('block_hash', 256))),
+               (re.compile(r'^<(bytes::)?Bytes as AsRef<\[u8\]>>::as_ref$|(bytes::)?Bytes::len$'), lambda ctx: [(None, ctx.ex.deref_val(ctx.st, ctx.args[0]) if 'as_ref' in ctx.callee else z3.BitVec('len', 64))])]
+      ex = loader.load(['astria-core', 'astria-merkle', 'astria-core-address'], scalar_types={'astria_core::primitive::v1::RollupId': 256, 'RollupId': 256, 'primitive::v1::RollupId': 256, 'block::Hash': 256, 'sequencerblock::v1::block::Hash': 256},
+                       hooks=hooks, dep_adts=['tendermint'])
+      run._ex = ex
+      cands = [n for n in ex.fns if n.endswith('::try_from_raw') and 'closure' not in n and (ex.impl_self(n) or (None, ''))[1] == tyname and (ex.impl_self(n) or (None,))[0] is None]
+      if len(cands) != 1:
+          raise Inconclusive(f'{tyname}::try_from_raw not found: {cands}')
+      run.bound(raw='raw blocks with 0..1 rollup entries, proofs / header present or absent, 0 upgrade hashes, extended commit info present or absent', checks='every conversion and every Merkle check is an oracle that may fail; what is decided is that none of them can be skipped')
+      n_ok = 0
+      RAW = 'astria_core::generated::astria::sequencerblock::v1::'
+      for k in (0, 1):
+          for has_eci in (False, True):
+              optp = lambda tag: (lambda o: o)(_opt(tag))
+              extra = dict(all_rollup_ids=M.new_vec('Vec<RollupId>', [])) if tyname == 'FilteredSequencerBlock' else {}
+              raw = B.struct(ex, RAW + tyname, **extra, block_hash=Obj('bytes::Bytes', kind='opaque'), header=_opt('header'), rollup_transactions=M.new_vec('Vec<RollupTransactions>', [Obj(RAW + 'RollupTransactions', kind='opaque') for _ in range(k)]),
+                             rollup_transactions_proof=_opt('rtp'), rollup_ids_proof=_opt('rip'), upgrade_change_hashes=M.new_vec('Vec<Bytes>', []),
+                             extended_commit_info_with_proof=(some(Obj('raw-eci', kind='opaque')) if has_eci else none()))
+              st = ex.start(cands[0], [raw])
+              for i, p in enumerate(run.explore(ex, st, allow_havoc=(r'^Arguments::|fmt::', r'SequencerBlockError::'))):
+                  lab = f'[{k} rollups, extended commit info {has_eci}, path {i}]'
+                  if p.kind != 'return':
+                      run.prove(f'no panic {lab}', p.pc, z3.BoolVal(False), detail=p.info); continue
+                  orc = {}
+                  for e in p.log:
+                      if e[0] == 'oracle':
+                          orc.setdefault(e[1], []).append(e[2])
+                  run.sample({'rollups': k, 'eci': has_eci, 'path': i, 'result': p.result.discr, 'checks': {a: len(b) for a, b in orc.items()}})
+                  if p.result.discr != 'Ok':
+                      continue
+                  n_ok += 1
+                  txs_check = 'rollup_txs_included' if tyname == 'SequencerBlock' else 'rollup_txs_match_root'
+                  need = ['proof_wellformed', 'header_wellformed', 'root_proof_verifies', 'rollup_ids_included'] + ([txs_check] if (tyname == 'SequencerBlock' or k) else []) + (['extended_commit_info_ok'] if has_eci else [])
+                  claim = [z3.BoolVal(all(nm in orc for nm in need) and len(orc.get('proof_wellformed', [])) == 2 and len(orc.get('rollup_transactions_wellformed', [])) == k and (tyname == 'SequencerBlock' or len(orc.get('rollup_txs_match_root', [])) == k))]
+                  claim += [b for nm in need + (['rollup_transactions_wellformed'] if k else []) for b in orc.get(nm, [])]
+                  run.prove(f'accepted => both proofs and the header are well-formed, the transactions root proof verifies, every rollup\'s transactions and the rollup ids are included under the data hash (and the extended commit info, when present, was checked) {lab}',
+                            p.pc, z3.And(*claim))
+      if not n_ok:
+          raise Inconclusive('vacuity: no accepting path')
+      run.require_reached(*run.cur.reach)
+
+
+  return c17_3
+
+
+obligation('C17', 'C17-3a SequencerBlock::try_from_raw accepts a raw block only after the rollup-transactions root, every rollup\'s transactions and the rollup ids were all shown to be included under the header\'s data hash')(must_verify('SequencerBlock'))
+obligation('C17', 'C17-3b FilteredSequencerBlock::try_from_raw accepts a raw block only after the rollup-transactions root proof, every served rollup\'s transactions against that root and the rollup ids were all checked')(must_verify('FilteredSequencerBlock'))
 
 
 def _opt(tag):
